@@ -248,7 +248,8 @@ def construct_textured(col, k):
     col.images.append(img)
     sf = M.Surface('csurf%d' % k, img, 'A8R8G8B8')
     sp = M.Sampler2D('csamp%d' % k, sf, None, None)
-    fx = M.Effect('cfx%d' % k, [sf, sp], 'lambert', diffuse=M.Map(sp, 'UV0'), ambient=(0.5, 0.5, 0.5, 1.0))
+    fx = M.Effect('cfx%d' % k, [sf, sp], 'lambert', bumpmap=M.Map(sp, 'UV0'), diffuse=M.Map(sp, 'UV0'),
+                  ambient=(0.5, 0.5, 0.5, 1.0))
     col.effects.append(fx)
     col.materials.append(M.Material('cmat%d' % k, 'cmat%d' % k, fx))
 
@@ -259,19 +260,105 @@ def save_clause(col, ob, renames):
     fails = []
     M = __import__('collada').material
     presave = 0
+
+    def check_bindings(when):
+        root = col.xmlnode.getroot()
+        for owner, literal0, target, lib in ob.bindings:
+            if isinstance(lib, tuple):
+                where, attr = 'nodes', 'url'
+            else:
+                where = lib
+                attr = 'target' if type(owner).__name__ == 'MaterialNode' else 'url'
+            cls = type(owner).__name__
+            if cls in ('Skin', 'Morph'):
+                kind = 'controller-source'
+                written = owner.xmlnode.find(col.tag('skin' if cls == 'Skin' else 'morph')).get('source')
+                if cls == 'Morph' and not literal0 == written and literal0 is not None:
+                    # morph targets are names inside an IDREF array
+                    arr = owner.xmlnode.find('.//' + col.tag('IDREF_array'))
+                    written = '#' + target.id if (arr is not None and target.id in (arr.text or '').split()) else '#<stale>'
+            elif cls == 'Surface':
+                kind = 'surface-image'
+                written = '#' + (owner.xmlnode.find('.//' + col.tag('init_from')).text or '')
+            elif cls == 'Material':
+                kind = 'material-effect'
+                written = owner.xmlnode.find(col.tag('instance_effect')).get('url')
+            elif owner is col:
+                kind = 'default-scene'
+                dn = root.find('%s/%s' % (col.tag('scene'), col.tag('instance_visual_scene')))
+                written = dn.get('url') if dn is not None else None
+            else:
+                kind = bare(owner.xmlnode.tag)
+                written = owner.xmlnode.get(attr)
+            want = '#%s' % target.id
+            if written != want:
+                fails.append(('saved-ref:%s' % kind, when + 'after save the %s reference reads %r; its target\'s current id is %r, so it must read %r' % (kind, written, target.id, want)))
+                continue
+            # resolves inside the written document
+            if isinstance(lib, tuple):
+                scene = lib[1]
+                els = [e for e in root.iter(col.tag('node')) if e.get('id') == target.id]
+            else:
+                ltag, itag = LIBTAG[where]
+                els = [e for l in root.findall(col.tag(ltag)) for e in l.findall(col.tag(itag)) if e.get('id') == target.id]
+            if not any(e is target.xmlnode for e in els):
+                fails.append(('saved-ref-unresolved:%s' % kind, when + 'the written %s reference %s names no element of the written document '
+                                                                 'that is its target' % (kind, written)))
+
+    sc = __import__('collada').scene
     for r in renames:
         if r[0] == 'construct':
             construct_textured(col, r[1])
         elif r[0] == 'save-first':
             presave += 1
+        elif r[0] in ('replace-bump', 'replace-map'):
+            # a NEW Map object put into the bump slot / a shader slot of a loaded textured effect
+            if r[1] < len(col.effects):
+                fx = col.effects[r[1]]
+                sps = [p for p in fx.params if isinstance(p, M.Sampler2D)]
+                if sps:
+                    if r[0] == 'replace-bump':
+                        fx.bumpmap = M.Map(sps[0], 'UV1')
+                    else:
+                        fx.diffuse = M.Map(sps[0], 'UV1')
+        elif r[0] == 'replace-effect':
+            if r[1] < len(col.materials) and len(col.effects) > 1:
+                m = col.materials[r[1]]
+                others = [e for e in col.effects if e is not m.effect]
+                m.effect = others[r[1] % len(others)]
+        elif r[0] == 'replace-target':
+            # the first geometry / light / camera instance of every library node and scene node gets another target
+            def walk(node):
+                for c in node.children:
+                    if isinstance(c, sc.NodeNode):
+                        continue
+                    if isinstance(c, sc.Node):
+                        walk(c)
+                    elif isinstance(c, sc.GeometryNode) and len(col.geometries) > 1:
+                        c.geometry = [g for g in col.geometries if g is not c.geometry][0]
+                        return
+                    elif isinstance(c, sc.LightNode) and len(col.lights) > 1:
+                        c.light = [g for g in col.lights if g is not c.light][0]
+                        return
+                    elif isinstance(c, sc.CameraNode) and len(col.cameras) > 1:
+                        c.camera = [g for g in col.cameras if g is not c.camera][0]
+                        return
+            for n in list(col.nodes) + [n for s_ in col.scenes for n in s_.nodes]:
+                walk(n)
+    if any(r[0] in ('construct', 'replace-bump', 'replace-map', 'replace-effect', 'replace-target') for r in renames):
+        # the bindings changed: read them again from the objects
+        ob.bindings = []
+        ob.structure = []
+        ob.observe()
     for _ in range(presave):
         # a first save without renames: the links must survive later renames too
         try:
             col.save()
         except Exception as e:  # noqa
             return [('save-raises:' + type(e).__name__, 'save() raised %r' % (e,))], None
+    rounds = [r for r in renames if r[0] == 'second-round']
     for r in renames:
-        if r[0] in ('construct', 'save-first'):
+        if r[0] in ('construct', 'save-first', 'replace-bump', 'replace-map', 'replace-effect', 'replace-target', 'second-round'):
             continue
         lib, i, new = r
         if lib == 'fxparams':
@@ -290,48 +377,25 @@ def save_clause(col, ob, renames):
         return [('save-raises:' + type(e).__name__, 'save() after renaming raised %r' % (e,))], None
     for kind, what in effect_links(col):
         fails.append(('saved-ref-unresolved:' + kind, 'after renames and save: ' + what))
-    root = col.xmlnode.getroot()
-    for owner, literal0, target, lib in ob.bindings:
-        if isinstance(lib, tuple):
-            where, attr = 'nodes', 'url'
-        else:
-            where = lib
-            attr = 'target' if type(owner).__name__ == 'MaterialNode' else 'url'
-        cls = type(owner).__name__
-        if cls in ('Skin', 'Morph'):
-            kind = 'controller-source'
-            written = owner.xmlnode.find(col.tag('skin' if cls == 'Skin' else 'morph')).get('source')
-            if cls == 'Morph' and not literal0 == written and literal0 is not None:
-                # morph targets are names inside an IDREF array
-                arr = owner.xmlnode.find('.//' + col.tag('IDREF_array'))
-                written = '#' + target.id if (arr is not None and target.id in (arr.text or '').split()) else '#<stale>'
-        elif cls == 'Surface':
-            kind = 'surface-image'
-            written = '#' + (owner.xmlnode.find('.//' + col.tag('init_from')).text or '')
-        elif cls == 'Material':
-            kind = 'material-effect'
-            written = owner.xmlnode.find(col.tag('instance_effect')).get('url')
-        elif owner is col:
-            kind = 'default-scene'
-            dn = root.find('%s/%s' % (col.tag('scene'), col.tag('instance_visual_scene')))
-            written = dn.get('url') if dn is not None else None
-        else:
-            kind = bare(owner.xmlnode.tag)
-            written = owner.xmlnode.get(attr)
-        want = '#%s' % target.id
-        if written != want:
-            fails.append(('saved-ref:%s' % kind, 'after save the %s reference reads %r; its target\'s current id is %r, so it must read %r' % (kind, written, target.id, want)))
-            continue
-        # resolves inside the written document
-        if isinstance(lib, tuple):
-            scene = lib[1]
-            els = [e for e in root.iter(col.tag('node')) if e.get('id') == target.id]
-        else:
-            ltag, itag = LIBTAG[where]
-            els = [e for l in root.findall(col.tag(ltag)) for e in l.findall(col.tag(itag)) if e.get('id') == target.id]
-        if not any(e is target.xmlnode for e in els):
-            fails.append(('saved-ref-unresolved:%s' % kind, 'the written %s reference %s names no element of the written document '
-                                                             'that is its target' % (kind, written)))
+    check_bindings('')
+    if rounds and not fails:
+        # save -> rename everything once more -> save again: the links must follow the second rename too
+        for a in LIBS:
+            for o in getattr(col, a):
+                if getattr(o, 'id', None) is not None and not (a == 'geometries' and o.id in rounds[0][1]):
+                    if a != 'controllers':
+                        o.id = o.id + '-2'
+        for fx in col.effects:
+            for p in fx.params:
+                if isinstance(p, (M.Surface, M.Sampler2D)):
+                    p.id = p.id + '-2'
+        try:
+            col.save()
+        except Exception as e:  # noqa
+            return fails + [('save-raises:' + type(e).__name__, 'the second save() after renaming again raised %r' % (e,))], None
+        for kind, what in effect_links(col):
+            fails.append(('saved-ref-unresolved:' + kind, 'save, rename, save again: ' + what))
+        check_bindings('save, rename, save again: ')
     buf = io.BytesIO()
     try:
         col.write(buf)
